@@ -42,6 +42,13 @@ Proof.
     destruct (N.eqb_spec c SP) as [->|]; [rewrite is_ws_SP in Hh; discriminate|reflexivity].
 Qed.
 
+Lemma flat_map_ext_in' {A B} (f g : A -> list B) l :
+  (forall a, In a l -> f a = g a) -> flat_map f l = flat_map g l.
+Proof.
+  induction l as [|x r IH]; intros H; [reflexivity|]. cbn [flat_map].
+  rewrite (H x (or_introl eq_refl)), IH; [reflexivity|]. intros a Ha. apply H. right. exact Ha.
+Qed.
+
 Lemma esc_text_app a b : esc_text (a ++ b) = esc_text a ++ esc_text b.
 Proof. apply flat_map_app. Qed.
 
@@ -199,35 +206,38 @@ Section C18.
   Lemma node_str_simple n : (is_tag n || is_text n)%bool = false -> node_str n = simple_pp ind align 0 n.
   Proof. destruct n; cbn; intros; try discriminate; reflexivity. Qed.
 
-  Theorem C18_pretty t : is_tag t = true -> data_style t = true -> reduced t -> ind <> [] -> ws_indent ind = true ->
-    pretty ind align t = simple_pp ind align 0 t.
-  Proof.
-    intros Ht Hd _ _ _. unfold pretty, pretty_chunk. apply pretty_is_simple; [|exact Hd].
-    destruct t; try discriminate; reflexivity.
-  Qed.
-
   Lemma epilogue_lines (f : node -> str) l : l <> [] ->
     NL ++ flat_map (fun n => f n ++ NL) (removelast l) ++ f (last l (Text [])) = flat_map (fun n => NL ++ f n) l.
   Proof.
     induction l as [|x r IH]; [congruence|]. intros _. destruct r as [|y r'].
     - cbn [removelast last flat_map app]. rewrite app_nil_r. reflexivity.
-    - change (removelast (x :: y :: r')) with (x :: removelast (y :: r')).
-      change (last (x :: y :: r') (Text [])) with (last (y :: r') (Text [])).
-      cbn [flat_map]. rewrite <- IH by discriminate. rewrite <- !app_assoc. reflexivity.
+    - remember (y :: r') as l2 eqn:E2.
+      assert (Hl2 : l2 <> []) by (subst; discriminate).
+      assert (E1 : removelast (x :: l2) = x :: removelast l2) by (subst; reflexivity).
+      assert (E3 : last (x :: l2) (Text []) = last l2 (Text [])) by (subst; reflexivity).
+      rewrite E1, E3. cbn [flat_map]. rewrite <- (IH Hl2). rewrite <- !app_assoc. reflexivity.
   Qed.
 
-  Theorem C18_doc pro t epi : is_tag t = true -> data_style t = true -> reduced t -> ind <> [] -> ws_indent ind = true ->
-    forallb (fun n => negb (is_tag n || is_text n)) (pro ++ epi) = true ->
-    pretty_doc ind align pro t epi = simple_doc ind align pro t epi.
-  Proof.
-    intros Ht Hd Hr Hi Hw Hm. unfold pretty_doc, doc_out, simple_doc.
-    rewrite (C18_pretty t Ht Hd Hr Hi Hw). rewrite forallb_app in Hm. apply andb_prop in Hm as [Hp He].
-    f_equal. f_equal. f_equal.
-    - apply flat_map_ext_in. intros n Hin. rewrite forallb_forall in Hp. specialize (Hp n Hin).
-      apply negb_true_iff in Hp. rewrite (node_str_simple n Hp). reflexivity.
-    - f_equal. destruct epi as [|e0 er]; [reflexivity|].
-      rewrite epilogue_lines by discriminate. apply flat_map_ext_in. intros n Hin.
-      rewrite forallb_forall in He. specialize (He n Hin). apply negb_true_iff in He.
-      rewrite (node_str_simple n He). reflexivity.
-  Qed.
 End C18.
+
+Theorem C18_pretty t ind align : is_tag t = true -> data_style t = true -> reduced t -> ind <> [] -> ws_indent ind = true ->
+  pretty ind align t = simple_pp ind align 0 t.
+Proof.
+  intros Ht Hd _ Hi Hw. unfold pretty, pretty_chunk. apply pretty_is_simple; [exact Hi|exact Hw| |exact Hd].
+  destruct t; try discriminate; reflexivity.
+Qed.
+
+Theorem C18_doc pro t epi ind align : is_tag t = true -> data_style t = true -> reduced t -> ind <> [] -> ws_indent ind = true ->
+  forallb (fun n => negb (is_tag n || is_text n)) (pro ++ epi) = true ->
+  pretty_doc ind align pro t epi = simple_doc ind align pro t epi.
+Proof.
+  intros Ht Hd Hr Hi Hw Hm. unfold pretty_doc, doc_out, simple_doc.
+  rewrite (C18_pretty t ind align Ht Hd Hr Hi Hw). rewrite forallb_app in Hm. apply andb_prop in Hm as [Hp He].
+  f_equal. f_equal. f_equal.
+  - apply flat_map_ext_in'. intros n Hin. rewrite forallb_forall in Hp. specialize (Hp n Hin).
+    apply negb_true_iff in Hp. rewrite (node_str_simple ind align n Hp). reflexivity.
+  - f_equal. destruct epi as [|e0 er]; [reflexivity|].
+    rewrite epilogue_lines by discriminate. apply flat_map_ext_in'. intros n Hin.
+    rewrite forallb_forall in He. specialize (He n Hin). apply negb_true_iff in He.
+    rewrite (node_str_simple ind align n He). reflexivity.
+Qed.
